@@ -55,7 +55,7 @@ class Scheduler:
         self.line_root = line_root     # when set: every source line executed under this path is a scheduling point
 
     def _tracer(self, frame, event, arg):
-        if frame.f_code.co_filename.startswith(self.line_root):
+        if frame.f_code.co_filename.startswith(self.line_root):     # a path prefix or a tuple of prefixes
             return self._local_trace
         return None
 
